@@ -30,6 +30,11 @@ def increasing : List Nat → Bool
 def positionsOk (pre : List Nat) (count : Nat) : Bool :=
   increasing pre && (match pre.getLast? with | some l => decide (l < count) | none => true)
 
+/-- `len(set(short_ids)) != len(short_ids)` -/
+def hasDup : List Nat → Bool
+  | [] => false
+  | a :: rest => rest.contains a || hasDup rest
+
 structure St where
   slots : List Slot
   wtxidOf : List (Nat × Nat)
@@ -55,10 +60,17 @@ def reconstruct (pre shortIds : List Nat) (pool : List (Nat × Nat)) : Except Er
   else if !positionsOk pre count then .error .positions
   else
     let slots0 := (List.range count).map fun i => if pre.contains i then Slot.prefilled else Slot.missing
-    if shortIds.eraseDups.length ≠ shortIds.length then .error .dupShortIds
+    if hasDup shortIds then .error .dupShortIds
     else
       let free := (List.range count).filter fun i => !pre.contains i
       let positionOf := shortIds.zip free
       .ok (pool.foldl (step positionOf) ⟨slots0, [], []⟩).slots
+
+/-- `PartialBlock.fill` with the transactions the block really has at the missing positions
+    (`blk` = the original block as wtxids): what the filled block is. -/
+def fill (slots : List Slot) (blk : List Nat) : List Nat :=
+  (slots.zip blk).map fun
+    | (.pool w, _) => w
+    | (_, b) => b
 
 end Btc.CompactBlocks
